@@ -377,6 +377,26 @@ theorem enabled_of_enabled' (w : World) (s : St) (h : Enabled' w s) : Enabled w 
   | none => rw [hs] at he; cases he
   | some s' => exact ⟨e, s', hs⟩
 
+theorem mem_of_task (s : St) (f : File) (t : Task) (h : s.task f = some t) : (f, t) ∈ s.tasks := by
+  unfold St.task at h
+  cases hf : s.tasks.find? (·.1 == f) with
+  | none => simp [hf] at h
+  | some x =>
+    rw [hf] at h
+    have hm := List.mem_of_find?_eq_some hf
+    have hx : x.1 = f := by simpa using List.find?_some hf
+    have ht : x.2 = t := by simpa using h
+    rw [← hx, ← ht]; exact hm
+
+/-- the import a task is looking at in its dependency loop may be spawned -/
+theorem spawnOk_of_deps (w : World) (s : St) (f d : File) (t : Task) (i : Nat) (ht : s.task f = some t)
+    (hpc : t.pc = .deps i) (hd : (w.imports f)[i]? = some d) : spawnOk w s d = true := by
+  unfold spawnOk
+  rw [Bool.or_eq_true]
+  right
+  rw [List.any_eq_true]
+  exact ⟨(f, t), mem_of_task s f t ht, by simp [hpc, hd]⟩
+
 /-- a task that is not waiting for anything has an enabled transition -/
 theorem running_enabled (w : World) (s : St) (hcr : s.crashed = false) (hH : H s) (hD : D w s)
     (hG : G w s) (hFC : FC w s)
@@ -410,7 +430,7 @@ theorem running_enabled (w : World) (s : St) (hcr : s.crashed = false) (hH : H s
         by_cases hdf : d = f
         · subst hdf; exact ⟨.selfimport d, by simp [step, ht, h, hcr, hd', hfl]⟩
         · cases htd : s.task d with
-          | none => exact ⟨.spawn d, by simp [step, htd, hcr]⟩
+          | none => exact ⟨.spawn d, by simp [step, htd, hcr, spawnOk_of_deps w s f d t i ht h hd']⟩
           | some td => exact ⟨.dep f d, by simp [step, ht, h, hcr, hd', hdf, htd, hfl]⟩
   · by_cases hl : w.linkOk f = true
     · exact ⟨.complete f, by simp [step, ht, h, hcr, hl]⟩
@@ -669,13 +689,19 @@ theorem no_orbit : ∀ B x, Stuck w s x → (∀ j, pubOf s (it (nxt w s) j x) <
 end dead
 
 /-- **C06 (no deadlock, every import graph).** For every import graph — cyclic or not —, every
-    parallelism ≥ 1, every fault plan and every reachable state: as long as the result of some file
-    is not ready, some transition is enabled. -/
+    parallelism ≥ 1, every fault plan and every reachable state: as long as the result of some
+    requested or already started file is not ready, some transition is enabled. -/
 theorem no_stuck_state (w : World) (hpar : w.par ≥ 1) (s : St) (hr : Reachable w s)
-    (r : File) (hnf : isFinished s r = false) : Enabled w s := by
+    (r : File) (hreq : r ∈ w.req ∨ (s.task r).isSome = true) (hnf : isFinished s r = false) :
+    Enabled w s := by
   apply enabled_of_enabled'
   cases ht : s.task r with
-  | none => exact ⟨.spawn r, by simp [step, ht, no_double_close w s hr]⟩
+  | none =>
+    have hrq : r ∈ w.req := by
+      rcases hreq with h | h
+      · exact h
+      · rw [ht] at h; cases h
+    exact ⟨.spawn r, by simp [step, ht, no_double_close w s hr, spawnOk, hrq]⟩
   | some t =>
     by_contra hdead
     have hst := stuck_of_dead w hpar s hr hdead r t ht hnf
